@@ -36,7 +36,7 @@ def topk(a, k, axis=-1, split_every=None):
         keepdims=True,
         dtype=a.dtype,
         split_every=split_every,
-        output_size=abs(k),
+        output_size=min(abs(k), a.shape[axis]),  # no more than the axis holds
     )
 
 
@@ -77,6 +77,6 @@ def argtopk(a, k, axis=-1, split_every=None):
         dtype=np.intp,
         split_every=split_every,
         concatenate=False,
-        output_size=abs(k),
+        output_size=min(abs(k), a.shape[axis]),  # no more than the axis holds
         meta=meta,
     )
